@@ -2,6 +2,7 @@ import MsiProofs.Props.C19
 import MsiProofs.Lemmas.StmtRead
 import MsiProofs.Lemmas.StmtLex
 import MsiModel.QueryFmt
+import MsiModel.Gen.Stmt
 /-
 C19 for statements.  The words and signs of a printed `UPDATE`, `DELETE` or `INSERT`, in order,
 determine the statement: a reader over those tokens returns the table, every assignment with its
@@ -39,8 +40,26 @@ theorem demo_update_reads :
   readUpdate_toks _ _ (by simp) _
 
 
+/-- **the words and signs the printers write** (regenerated from the `Display` implementations of
+query.rs, per implementation in source order, with the number of `write!` calls - none) are the
+ones the model of the printers (QueryFmt) spells out and the readers above expect -/
+theorem stmt_spellings : Gen.displayLits =
+    [("Delete", ["DELETE FROM ", " WHERE "], 0),
+     ("Insert", ["INSERT INTO ", " VALUES ", ", ", "(", ", ", ")"], 0),
+     ("Join", [" INNER JOIN ", " ON ", " LEFT JOIN ", " ON "], 0),
+     ("Select", ["SELECT ", "*", ", ", " FROM ", " WHERE "], 0),
+     ("Update", ["UPDATE ", " SET ", ", ", " = ", " WHERE "], 0),
+     ("format_for_join", ["(", ")"], 0)] := by decide +kernel
+
+/-- and the model prints with them: an INSERT of two rows, a DELETE, a nested join (kernel-evaluated) -/
+theorem demo_printers_use_them :
+    QueryFmt.fmtInsert "T".toList [[.int 1, .null], []] = some "INSERT INTO T VALUES (1, NULL), ()".toList ∧
+    QueryFmt.fmtDelete "T".toList (some (.col "A".toList)) = some "DELETE FROM T WHERE A".toList ∧
+    QueryFmt.fmtSelect (.mk (.left (.mk (.table "A".toList) [] none) (.mk (.table "B".toList) ["X".toList] none) (.col "Y".toList)) ["P".toList, "Q".toList] none)
+      = some "SELECT P, Q FROM A LEFT JOIN (SELECT X FROM B) ON Y".toList := by decide +kernel
+
 /-! ### from characters -/
-open MsiProofs.StmtLex MsiProofs.ExprLex
+open MsiProofs.StmtLex MsiProofs.ExprLex MsiModel.StmtLex
 
 /-- **a printed UPDATE, read from its characters, is the statement that was printed**: the table,
 every assignment with its value in order, and the condition as the same expression tree -/
